@@ -525,6 +525,34 @@ async def c20_yaml_import_keeps_record(w):
     return {"reproduced": bool(bad), "observed": out, "expected": "record {'somepkg': '1.0'} kept in both cases"}
 
 
+async def c17_excluded_builtin(w):
+    """Every builtin pyscript withholds from scripts (BUILTIN_EXCLUDE), read in every scope form: at module level, in a function,
+    in a function that declares the name global, in a nested function, through a lambda.  None may yield the real builtin."""
+    import builtins
+    from custom_components.pyscript.eval import BUILTIN_EXCLUDE
+    await boot_full()
+    names = sorted(BUILTIN_EXCLUDE) if not w.get("name") or w.get("name") not in BUILTIN_EXCLUDE else [w["name"]]
+    forms = {
+        "module": "r = {N}\n",
+        "function": "def f():\n    return {N}\nr = f()\n",
+        "global-declared": "def f():\n    global {N}\n    return {N}\nr = f()\n",
+        "nested": "def f():\n    def g():\n        return {N}\n    return g()\nr = f()\n",
+        "global-declared-nested": "def f():\n    def g():\n        global {N}\n        return {N}\n    return g()\nr = f()\n",
+    }
+    leaks, cases = [], 0
+    for nm in names:
+        if not hasattr(builtins, nm):
+            continue
+        for form, tpl in forms.items():
+            cases += 1
+            g, _, exc = await run_source(f"file.c17x_{cases}", tpl.replace("{N}", nm))
+            got = g.global_sym_table.get("r")
+            if exc is None and got is getattr(builtins, nm):
+                leaks.append({"name": nm, "form": form})
+    await shutdown()
+    return {"reproduced": bool(leaks), "observed": {"reached": leaks[:6], "cases": cases}, "expected": "no form yields the withheld builtin"}
+
+
 async def c12_outgoing(w):
     """service.call / domain.service() with control-keyword look-alikes; data delivered must equal the given kwargs
     minus control keywords of the recognised type."""
